@@ -486,6 +486,9 @@ def items(tier, seed):
             for chunk in _chunks_by_cost(mss, 110):
                 out.append(("ukf", tier, seed, ci, chunk, ph))
     out.append(("flags", tier, seed))
+    for cls_name in ("smm", "gpb1"):
+        for k_models in (2, 3):
+            out.append(("mmseam", tier, seed, cls_name, k_models))
     base = _base_angles(seed)
     for which in range(4):
         out.append(("angmean", tier, seed, which))
@@ -538,6 +541,9 @@ def bounds(tier, seed):
         "component_order_variants": ["alone", "before partner (az,el)/(el,az) of a second site", "after it"],
         "component_order_sensor_configs": {k: list(v) for k, v in SENSOR_KINDS.items()},
         "gpf_particles": GPF_POP,
+        "multiple_model_seam": {"filters": ["smm", "gpb1"], "models": [2, 3], "reference_azimuth_deg": MM_REF_AZ_DEG,
+                                "hypothesis_spread_deg": MM_SPREADS_DEG, "prior_weights": MM_WEIGHTS,
+                                "measurements": ["az,el", "el,az", "az,el,range,range-rate"]},
         "gpf_orders_of_4_stacks": [list(o) for o in GPF_ORDERS_4_Q] if tier == "quick" else "all 24",
     }
 
@@ -1845,6 +1851,114 @@ def _run_flags(res, item):
     res.observe(ok_map)
 
 
+
+# =================================================================================================== multiple-model seam
+# Combined innovation of the real multiple-model filters (StaticMultipleModel, GeneralizedPseudoBayesian1) whose
+# hypotheses lie on both sides of the azimuth seam: the statement's "moving the wrap point ... leaves the update
+# unchanged, angular innovations in (-180, 180]" has to hold for the innovation every filter class reports.
+MM_REF_AZ_DEG = [0.0, 359.97, 0.03, 90.0, 180.0, 270.0]
+MM_SPREADS_DEG = [0.08, 0.4]
+MM_WEIGHTS = {2: [[0.5, 0.5], [0.8, 0.2]], 3: [[1 / 3, 1 / 3, 1 / 3], [0.6, 0.3, 0.1]]}
+MM_SITE = (35.0, -105.0, 0.3)
+MM_EPOCH0 = (2021, 3, 30, 16, 0, 0)
+MM_DT = 60.0
+
+
+def _mm_wrap(d):
+    return np.arctan2(np.sin(d), np.cos(d))
+
+
+def _mm_target(az_deg, el_deg, rng_km, when):
+    """ECI state of a point seen from MM_SITE at (az, el, range), on a circular-speed tangential velocity."""
+    lat, lon, alt = math.radians(MM_SITE[0]), math.radians(MM_SITE[1]), MM_SITE[2]
+    az, el = math.radians(az_deg), math.radians(el_deg)
+    sez = rng_km * np.array([-math.cos(el) * math.cos(az), math.cos(el) * math.sin(az), math.sin(el)])
+    site = lla2eci(np.array([lat, lon, alt]), when)
+    rel = sez2eci(np.concatenate([sez, np.zeros(3)]), lat, lon, when)
+    pos = site[:3] + rel[:3]
+    t_hat = np.cross(np.array([0.0, 0.0, 1.0]), pos)
+    t_hat /= np.linalg.norm(t_hat)
+    return np.concatenate([pos, math.sqrt(398600.4418 / np.linalg.norm(pos)) * t_hat]), site
+
+
+def _run_mmseam(res, item):
+    import datetime as _dt
+
+    from resonaate.dynamics.two_body import TwoBody
+    from resonaate.estimation.adaptive.gpb1 import GeneralizedPseudoBayesian1
+    from resonaate.estimation.adaptive.initialization import lambertInitializationFactory
+    from resonaate.estimation.adaptive.mmae_stacking_utils import eciStack
+    from resonaate.estimation.adaptive.smm import StaticMultipleModel
+    from resonaate.estimation.maneuver_detection import StandardNis
+
+    it = tuple(item)
+    _, tier, seed, cls_name, k_models = it
+    cls = {"smm": StaticMultipleModel, "gpb1": GeneralizedPseudoBayesian1}[cls_name]
+    e0 = _dt.datetime(*MM_EPOCH0)
+    e1 = e0 + _dt.timedelta(seconds=MM_DT)
+    jd1 = float(datetimeToJulianDate(e1))
+    dyn = TwoBody()
+    p0 = np.diag([0.05, 0.05, 0.05, 1e-8, 1e-8, 1e-8])
+    q = 1e-14 * np.eye(6)
+    flip = np.array([1, 1, 1, -1, -1, -1.0])
+    meas_sets = [(["azimuth_rad", "elevation_rad"], "Optical"), (["elevation_rad", "azimuth_rad"], "Optical"),
+                 (["azimuth_rad", "elevation_rad", "range_km", "range_rate_km_p_sec"], "AdvRadar")]  # fmt: skip
+
+    def ukf(x0):
+        return UnscentedKalmanFilter(10001, ScenarioTime(0.0), x0, p0.copy(), dyn, q, maneuver_detection=StandardNis(1e-9))
+
+    for ref_az in MM_REF_AZ_DEG:
+        for spread in MM_SPREADS_DEG:
+            offs = [+1.0, -1.0] if k_models == 2 else [+1.0, -1.0, +0.25]
+            truth, site = _mm_target(ref_az, 50.0, 1200.0, e1)
+            hyp1 = [_mm_target((ref_az + o * spread) % 360.0, 50.0, 1200.0, e1)[0] for o in offs]
+            hyp0 = [dyn.propagate(ScenarioTime(0.0), ScenarioTime(MM_DT), h * flip) * flip for h in hyp1]
+            for w0 in MM_WEIGHTS[k_models]:
+                for labels, stype in meas_sets:
+                    case = {"filter": cls_name, "models": k_models, "ref_az_deg": ref_az, "spread_deg": spread,
+                            "weights": w0, "labels": labels}  # fmt: skip
+                    mm = cls(ukf(np.mean(hyp0, axis=0)), ScenarioTime(MM_DT), lambertInitializationFactory("lambert_universal"),
+                             eciStack, previous_obs_window=1, model_interval=MM_DT, prune_threshold=1e-300,
+                             prune_percentage=0.997)  # fmt: skip
+                    mm.models = [ukf(x0) for x0 in hyp0]
+                    mm.num_models = k_models
+                    mm.model_weights = np.array(w0, dtype=float)
+                    mm.model_likelihoods = np.ones(k_models)
+                    mm.mode_probabilities = np.array(w0, dtype=float)
+                    meas = Measurement.fromMeasurementLabels(labels, np.diag([1.0e-6] * len(labels)))
+                    ob = Observation.fromMeasurement(jd1, 10001, truth, 300001, site, stype, meas, noisy=False)
+                    mm.predict(ScenarioTime(MM_DT))
+                    mm.update([ob])
+                    if len(mm.models) != k_models:
+                        res.case("mm_seam/models_kept", case, True, item=it)  # pruned: nothing to compare
+                        continue
+                    y = np.asarray(ob.measurement_states, dtype=float)
+                    ang = np.array([lb in ("azimuth_rad", "elevation_rad") for lb in labels])
+                    preds = [np.asarray(m.mean_pred_y, dtype=float) for m in mm.models]
+                    per = np.array([np.where(ang, _mm_wrap(y - yh), y - yh) for yh in preds])
+                    w = np.asarray(mm.model_weights, dtype=float)
+                    exp = w @ per
+                    got = np.asarray(mm.innovation, dtype=float)
+                    on_seam = ref_az in (0.0, 359.97, 0.03)
+                    straddle = on_seam and (max(p[labels.index("azimuth_rad")] for p in preds)
+                                            - min(p[labels.index("azimuth_rad")] for p in preds)) > math.pi  # fmt: skip
+                    ok_shape = got.shape == exp.shape
+                    scale = np.where(ang, 1.0, 1.0e3)
+                    err = float(np.max(np.abs(got - exp) / scale)) if ok_shape else float("inf")
+                    res.case("mm_seam/innovation_is_weighted_wrapped_model_innovation", case, ok_shape and err <= 1e-9,
+                             nontrivial=straddle, key=("mm", cls_name, k_models, ref_az, spread, tuple(w0), tuple(labels)),
+                             signature=f"C16/mm_seam/innovation/{cls_name}/{'straddling' if straddle else 'off_seam'}",
+                             observed=got.tolist(), expected=exp.tolist(), item=it)  # fmt: skip
+                    lo, hi = per.min(axis=0) - 1e-9, per.max(axis=0) + 1e-9
+                    inside = ok_shape and bool(np.all(got >= lo) and np.all(got <= hi))
+                    in_range = ok_shape and bool(np.all((got[ang] > -PI - 1e-12) & (got[ang] <= PI + 1e-12)))
+                    res.case("mm_seam/innovation_within_model_span", case, inside and in_range, nontrivial=straddle,
+                             outcome=f"{cls_name}/{'straddling' if straddle else 'off_seam'}",
+                             signature=f"C16/mm_seam/span/{cls_name}/{'straddling' if straddle else 'off_seam'}",
+                             observed=got.tolist(), expected=[lo.tolist(), hi.tolist()], item=it)  # fmt: skip
+                    res.observe(got, w)
+
+
 # =================================================================================================== dispatch
 def run_item(item):
     res = fw.Result()
@@ -1862,6 +1976,8 @@ def run_item(item):
         _run_angtiny(res, item)
     elif kind == "flags":
         _run_flags(res, item)
+    elif kind == "mmseam":
+        _run_mmseam(res, item)
     elif kind == "ukf":
         _run_ukf_item(res, item)
     elif kind == "real":
